@@ -8,6 +8,7 @@ CONSTANTS
     Debug = FALSE
     HookMode = "panic_start"
     PvSet = FALSE
+    Hang = FALSE
     DrainOnRefusal = TRUE
 VIEW View
 CHECK_DEADLOCK FALSE
